@@ -63,6 +63,8 @@ enum class longer : std::uint8_t { a, ab, abc, b, ba, c, x_1, fcppt_maximum = x_
 // names handed out as sub-views of ONE packed table: a std::string_view is not NUL-terminated at its
 // end (what follows "north" in memory is "eastsouthwest")
 enum class packed { north, east, south, west, fcppt_maximum = west };
+// names that end in an underscore (the usual spelling of an enumerator that collides with a keyword)
+enum class under { int_, float_, x_, fcppt_maximum = x_ };
 }
 namespace fcppt::enum_
 {
@@ -92,6 +94,20 @@ struct to_string_impl<packed>
     case packed::east: return table.substr(5, 4);
     case packed::south: return table.substr(9, 5);
     case packed::west: return table.substr(14, 4);
+    }
+    FCPPT_ASSERT_UNREACHABLE;
+  }
+};
+template <>
+struct to_string_impl<under>
+{
+  static std::string_view get(under const v)
+  {
+    switch (v)
+    {
+      FCPPT_ENUM_TO_STRING_CASE(under, int_);
+      FCPPT_ENUM_TO_STRING_CASE(under, float_);
+      FCPPT_ENUM_TO_STRING_CASE(under, x_);
     }
     FCPPT_ASSERT_UNREACHABLE;
   }
@@ -481,12 +497,14 @@ Reg const r_enum{"enum_text", Kind::exhaustive, "enum has >= 2 enumerators (name
                    enum_all<single>("single", {"only"});
                    enum_all<longer>("longer", {"a", "ab", "abc", "b", "ba", "c", "x_1"});
                    enum_all<packed>("packed", {"north", "east", "south", "west"});
+                   enum_all<under>("under", {"int_", "float_", "x_"});
                  },
                  [](Ints const &) {
                    enum_all<color>("color", {"red", "green", "blue"});
                    enum_all<single>("single", {"only"});
                    enum_all<longer>("longer", {"a", "ab", "abc", "b", "ba", "c", "x_1"});
                    enum_all<packed>("packed", {"north", "east", "south", "west"});
+                   enum_all<under>("under", {"int_", "float_", "x_"});
                  }};
 
 // -------------------------------------------------------------------- vector / dim text
